@@ -10,6 +10,7 @@ import (
 	"github.com/enbility/ship-go/logging"
 	"github.com/enbility/spine-go/api"
 	"github.com/enbility/spine-go/model"
+	"github.com/enbility/spine-go/util"
 )
 
 type DeviceRemote struct {
@@ -244,6 +245,13 @@ func (d *DeviceRemote) AddEntityAndFeatures(initialData bool, data *model.NodeMa
 					entity.AddFeature(f)
 				}
 			}
+		}
+
+		// the node management feature of entity 0 exists even if the remote device did not announce it,
+		// without it no further message of this device could be processed
+		if reflect.DeepEqual(entityAddress, DeviceInformationAddressEntity) &&
+			entity.FeatureOfAddress(util.Ptr(model.AddressFeatureType(NodeManagementFeatureId))) == nil {
+			entity.AddFeature(NewFeatureRemote(NodeManagementFeatureId, entity, model.FeatureTypeTypeNodeManagement, model.RoleTypeSpecial))
 		}
 	}
 
